@@ -85,6 +85,13 @@ def record(src):
             c.remove_gate('tmp_gate_of_the_past')
         except Exception:
             pass
+    if src.get('vs', 0) % 5 == 1 and c.input_size >= 3:
+        # ... or two of its inputs were fixed, one to True and one to False, in ONE replace_inputs call: the circuit
+        # evaluated below is the restricted one (constants where the inputs were, a shorter input list)
+        try:
+            c.replace_inputs([c.inputs[(src['vs'] // 5) % c.input_size]], [c.inputs[(src['vs'] // 5 + 1) % c.input_size]])
+        except Exception:
+            pass
     n = c.input_size
     labels = list(c.gates)
     res = {'full': {l: [] for l in labels}, 'circ': {l: [] for l in labels}, 'outs': {l: [] for l in dict.fromkeys(c.outputs)},
